@@ -187,3 +187,10 @@ Inductive sublist {A : Type} : list A -> list A -> Prop :=
 | sl_nil : sublist [] []
 | sl_skip : forall l1 x l2, sublist l1 l2 -> sublist l1 (x :: l2)
 | sl_keep : forall x l1 l2, sublist l1 l2 -> sublist (x :: l1) (x :: l2).
+
+(* after hot-swapping p1 (state m1) for p2, channel j of p2 continues exactly like channel i of p1 would have *)
+Definition continues (d : disc) (p1 : program) (cp1 : cprog) (p2 : program) (cp2 : cprog)
+           (m1 : mstate) (t1 : Z) (rows2 : list (list Z)) (i j : nat) : Prop :=
+  exists m2, hot_swap cp1 cp2 m1 = Some m2 /\
+    map (chan j) (outs_of (mach_run d p2 cp2 t1 rows2 m2))
+    = map (chan i) (outs_of (mach_run d p1 cp1 t1 rows2 m1)).
